@@ -669,7 +669,11 @@ func (ck *checker) check(idx int, ev Event, stmts []Stmt, ok bool, before, after
 			if shadow {
 				add(fTombUnique + fmt.Sprintf(" value %s rows %v", k, ids))
 			} else {
-				add(fmt.Sprintf("UNIQUE index on t(v) holds duplicate live rows: value %s rows %v", k, ids))
+				on := "t(v)"
+				if ck.cfg.UComp {
+					on = "t(v, s)"
+				}
+				add(fmt.Sprintf("UNIQUE index on %s holds duplicate live rows: value %s rows %v", on, k, ids))
 			}
 		}
 	}
